@@ -1,5 +1,5 @@
 import XPathV.Lemmas.AxesLemmas
-import XPathV.Theorems.C11
+import XPathV.Lemmas.C11Base
 /-!
 # C01 helpers — the node set each axis plan yields, per origin node
 -/
